@@ -1,6 +1,8 @@
 package rules
 
 import (
+	"go/token"
+	"go/types"
 	"sort"
 
 	"golang.org/x/tools/go/ssa"
@@ -20,6 +22,9 @@ type execRoles struct {
 	in    map[*ssa.Function]bool
 	run   *ssa.Call // the synchronous interp.Runner.Run call
 	runFn *ssa.Function
+	// runGo: when the interpreter runs in a goroutine that its starter always waits for
+	// (waitedGoroutine), the go statement; the goroutine then counts as part of Execute
+	runGo *ssa.Go
 }
 
 const fnInterpRun = "(*mvdan.cc/sh/v3/interp.Runner).Run"
@@ -44,6 +49,25 @@ func resolveExec(p *an.Prog) *execRoles {
 				er.run, er.runFn = call, f
 			}
 		}
+	}
+	if er.run == nil {
+		// the interpreter in a goroutine the starter always waits for: as good as a call
+		for _, fn := range p.Funcs {
+			if an.Outer(fn).Pkg != er.ex.Pkg || er.in[fn] {
+				continue
+			}
+			for _, ci := range an.CallsIn(fn, fnInterpRun) {
+				call, ok := ci.(*ssa.Call)
+				if !ok || !waitedGoroutine(p, er, fn, call) {
+					continue
+				}
+				er.run, er.runFn = call, fn
+				er.runGo, _ = p.CallSitesOf(fn)[0].(*ssa.Go)
+				er.in[fn] = true
+				er.scope = append(er.scope, fn)
+			}
+		}
+		sort.Slice(er.scope, func(i, j int) bool { return er.scope[i].String() < er.scope[j].String() })
 	}
 	return er
 }
@@ -74,5 +98,53 @@ func (er *execRoles) sources(v ssa.Value) []ssa.Value {
 // explorer returns an explorer of Execute with the helpers inlined.
 func (er *execRoles) explorer() *an.Explorer {
 	return &an.Explorer{P: er.p, NoReturn: noReturn, MaxDepth: 3,
-		Inline: func(f *ssa.Function) bool { return er.in[f] && f != er.ex }}
+		Inline: func(f *ssa.Function) bool { return er.in[f] && f != er.ex },
+		SyncGo: func(g *ssa.Go) bool { return er.runGo != nil && g == er.runGo }}
+}
+
+// carriedBy reports whether v is what was received from a channel onto which
+// the module sends nothing but `want` (the result of the awaited goroutine):
+// a receive expression or the value component of a select that received.
+func carriedBy(p *an.Prog, v ssa.Value, want ssa.Value) bool {
+	var ch ssa.Value
+	switch x := v.(type) {
+	case *ssa.UnOp:
+		if x.Op == token.ARROW {
+			ch = an.Resolve(x.X)
+		}
+	case *ssa.Extract:
+		if sel, ok := x.Tuple.(*ssa.Select); ok && x.Index >= 2 {
+			k := 0
+			for _, stt := range sel.States {
+				if stt.Dir != types.RecvOnly {
+					continue
+				}
+				if k == x.Index-2 {
+					ch = an.Resolve(stt.Chan)
+				}
+				k++
+			}
+		}
+	}
+	if ch == nil {
+		return false
+	}
+	if _, isMake := ch.(*ssa.MakeChan); !isMake {
+		return false
+	}
+	n := 0
+	okAll := true
+	for _, fn := range p.Funcs {
+		an.EachInstr(fn, func(in ssa.Instruction) {
+			snd, ok := in.(*ssa.Send)
+			if !ok || an.Resolve(snd.Chan) != ch {
+				return
+			}
+			n++
+			if an.Resolve(snd.X) != an.Resolve(want) {
+				okAll = false
+			}
+		})
+	}
+	return n > 0 && okAll
 }
